@@ -1,5 +1,6 @@
 import NA.Model.PanOs
 import NA.Core.IOUtil
+import NA.Spec.PanOsWhole
 /-!
 Driver for C03 (and the PAN-OS share of C07, C08, C10).  One request per line, fields separated
 by TAB; every string is percent-encoded (safe: letters, digits, `_ . -`; the empty string is `~`).
@@ -11,7 +12,11 @@ by TAB; every string is percent-encoded (safe: letters, digits, `_ . -`; the emp
   Answer: `ok|err  commands-or-message  flags`.
 * `EXEC  shared V cmds T` — strict execution of `cmds` on vsys `V`; `T` = target vsys.
   Answer: `accepted=<k> err=<reason|-> equiv=<0|1> wf=<0|1>  <vsys reached>`.
+* `DEVEXEC shared A groups` — `execDevAll`: the whole plan (`name|cmds` joined by `!`) on the whole device `A`;
+  answer: `ok  <device reached>` or `err  <reason>`.
 * `MYERS n m bits` — the port of `myers.Diff` on an equality matrix; answer: ranges.
+PLAN flags per targeted pair also say whether the pair lies in the fragment of the whole-vsys theorems
+(`plain`, `tnames`, `srvnd`: `PlainPair`, `TgtNames`, `SrvNodup`).
 -/
 namespace NA.Drv.C03
 open NA.PanOs
@@ -173,7 +178,9 @@ def hasMixedList (v : Vsys) : Bool :=
 
 def pairFlags (sh : Shared) (a b : Vsys) : String :=
   s!"wfA={b2s (wellFormed sh a)},wfB={b2s (wellFormed sh b)},nestA={b2s (!noNested a)},nestB={b2s (!noNested b)}," ++
-  s!"sgchg={b2s (sgroupChanged a b)},uniq={b2s (uniqClash a b)},mixed={b2s (hasMixedList a || hasMixedList b)}"
+  s!"sgchg={b2s (sgroupChanged a b)},uniq={b2s (uniqClash a b)},mixed={b2s (hasMixedList a || hasMixedList b)}," ++
+  s!"plain={b2s (decide (PlainPair sh a b))},tnames={b2s (decide (TgtNames sh b))}," ++
+  s!"srvnd={b2s (decide (SrvNodup a) && decide (SrvNodup b))}"
 
 def checkScripts (dev tgt : List Vsys) (s : String) : String :=
   let items := splitNE s "!"
@@ -232,6 +239,22 @@ def answerExec (shared v cmds t : String) : String :=
       | none => ("-", "-")
     s!"accepted={k} err={(e.map enc).getD "-"} equiv={eqv} mismatch={mm} wf={b2s (wellFormed sh w)}\t{showVsys w}"
 
+/-! ### DEVEXEC: a whole plan of `GetChanges` on the whole device -/
+
+def parseGroups (s : String) : List (String × List Cmd) :=
+  (splitNE s "!").filterMap (fun it =>
+    match it.splitOn "|" with
+    | [n, cs] => some (dec n, parseCmds cs)
+    | _ => none)
+
+def answerDevExec (shared dev groups : String) : String :=
+  match parseDevice dev with
+  | none => "bad-input"
+  | some d =>
+    match execDevAll (decList shared) d (parseGroups groups) with
+    | .error e => s!"err\t{enc e}"
+    | .ok d' => s!"ok\t{"!".intercalate (d'.map showVsys)}"
+
 /-! ### MYERS -/
 
 def answerMyers (n m bits : String) : String :=
@@ -249,6 +272,7 @@ def answer (line : String) : String :=
   match line.splitOn "\t" with
   | ["PLAN", devA, devB, sh, a, b, sc] => answerPlan devA devB sh a b sc
   | ["EXEC", sh, v, cmds, t] => answerExec sh v cmds t
+  | ["DEVEXEC", sh, dev, groups] => answerDevExec sh dev groups
   | ["MYERS", n, m, bits] => answerMyers n m bits
   | _ => "bad-request"
 
